@@ -827,6 +827,55 @@ func init() {
 		Run:  runC07_14})
 }
 
+// deferredPollerClose classifies a defer statement of OpenPoller: 0 = does not close the poller,
+// 1 = closes it on the error edge only (`if err != nil { poller.Close() }` in the closure),
+// 2 = closes it unconditionally.
+func deferredPollerClose(f *fn, d *ast.DeferStmt, closeFn *types.Func) int {
+	if flow.IsCall(f.Info, d.Call, closeFn) {
+		return 2
+	}
+	lit, ok := ast.Unparen(d.Call.Fun).(*ast.FuncLit)
+	if !ok {
+		return 0
+	}
+	kind := 0
+	var walk func(n ast.Node, guarded bool)
+	walk = func(n ast.Node, guarded bool) {
+		ast.Inspect(n, func(x ast.Node) bool {
+			switch y := x.(type) {
+			case *ast.IfStmt:
+				if y.Init != nil {
+					walk(y.Init, guarded)
+				}
+				g := guarded
+				if a, b, op, ok := flow.Cmp(y.Cond); ok && op == token.NEQ && flow.IsNil(f.Info, b) {
+					if o := flow.ObjOf(f.Info, a); o != nil && isErrorType(o.Type()) {
+						g = true
+					}
+				}
+				walk(y.Body, g)
+				if y.Else != nil {
+					walk(y.Else, guarded)
+				}
+				return false
+			case *ast.CallExpr:
+				if flow.IsCall(f.Info, y, closeFn) {
+					k := 2
+					if guarded {
+						k = 1
+					}
+					if k > kind {
+						kind = k
+					}
+				}
+			}
+			return true
+		})
+	}
+	walk(lit.Body, false)
+	return kind
+}
+
 func runC07_14(c *core.Ctx) {
 	f := getFn(c, "pkg/netpoll", "OpenPoller")
 	closeFn := c.P.Func("pkg/netpoll", "Poller.Close")
@@ -839,36 +888,37 @@ func runC07_14(c *core.Ctx) {
 		sFirst
 		sHeld
 		sOwes
+		nBase
 	)
-	var errObj types.Object
-	if sig, ok := f.Obj.Type().(*types.Signature); ok {
-		for i := 0; i < sig.Results().Len(); i++ {
-			if isErrorType(sig.Results().At(i).Type()) {
-				errObj = sig.Results().At(i)
-			}
-		}
-	}
+	// state = base + nBase*deferred: a registered deferred close settles the debt at the return
 	isErr := func(e ast.Expr) bool {
 		o := flow.ObjOf(f.Info, e)
-		return o != nil && isErrorType(o.Type()) && (errObj == nil || o == errObj || true)
+		return o != nil && isErrorType(o.Type())
 	}
 	au := &flow.Auto{Start: sNone}
 	au.Node = func(b *flow.Block, i int, n ast.Node, st int) int {
-		if as, ok := n.(*ast.AssignStmt); ok && st == sNone {
+		base, def := st%nBase, st/nBase
+		if d, ok := n.(*ast.DeferStmt); ok {
+			if deferredPollerClose(f, d, closeFn) > 0 {
+				def = 1
+			}
+			return base + nBase*def
+		}
+		if as, ok := n.(*ast.AssignStmt); ok && base == sNone {
 			for _, l := range as.Lhs {
 				if flow.FieldOf(f.Info, l) == fdF {
 					if _, isCall := ast.Unparen(as.Rhs[0]).(*ast.CallExpr); isCall {
-						return sFirst
+						return sFirst + nBase*def
 					}
 				}
 			}
 		}
 		for _, call := range flow.Calls(n) {
 			if flow.IsCall(f.Info, call, closeFn) {
-				return sNone
+				return sNone + nBase*def
 			}
 			if flow.IsPkgFunc(f.Info, call, unixPkg, "Close") && len(call.Args) == 1 && flow.FieldOf(f.Info, call.Args[0]) == fdF {
-				return sNone
+				return sNone + nBase*def
 			}
 		}
 		return st
@@ -881,33 +931,199 @@ func runC07_14(c *core.Ctx) {
 		if !ok || !flow.IsNil(f.Info, y) || !isErr(x) {
 			return st
 		}
+		base, def := st%nBase, st/nBase
 		failed := (op == token.NEQ) == e.Sense
-		switch st {
+		switch base {
 		case sFirst:
 			if failed {
-				return sNone
+				base = sNone
+			} else {
+				base = sHeld
 			}
-			return sHeld
 		case sHeld:
 			if failed {
-				return sOwes
+				base = sOwes
 			}
 		}
-		return st
+		return base + nBase*def
 	}
 	sol := f.Graph().Run(au)
 	k, bad := 0, token.NoPos
 	sol.AtExit(func(b *flow.Block, _ uint64) {
 		k++
-		if sol.Out(b)&(1<<sOwes) != 0 && bad == token.NoPos {
+		if sol.Out(b)&(1<<sOwes) != 0 && bad == token.NoPos { // owing with no deferred close registered
 			bad = b.Return.Pos()
 		}
 	})
-	c.Check(bad == token.NoPos, f.Name, "error returns after the poller descriptor exists close it", f.Decl.Pos(), itoa(k)+" returns inspected",
-		"OpenPoller can return an error after the epoll/kqueue descriptor was created without calling poller.Close(): every failed start-up attempt leaks that descriptor (and the wake-up descriptor)")
+	at := f.Decl.Pos()
 	if bad != token.NoPos {
-		_ = bad
+		at = bad
 	}
+	c.Check(bad == token.NoPos, f.Name, "error returns after the poller descriptor exists close it", at, itoa(k)+" returns inspected",
+		"OpenPoller can return an error after the epoll/kqueue descriptor was created without calling poller.Close() (directly or in a deferred clean-up): every failed start-up attempt leaks that descriptor (and the wake-up descriptor)")
+}
+
+func init() {
+	register(&core.Rule{ID: "C07.17", Prop: "C07", MinSites: 1,
+		Desc: "no close of a descriptor that was never created: Poller.Close() closes some descriptor fields unconditionally (epoll: efd and fd; kqueue: fd); OpenPoller reaches it – directly or through a deferred clean-up that runs on its error returns – only after each of those fields was assigned from its creating call, since a field still holding Go's zero value names descriptor 0, which belongs to the application",
+		Run:  runC07_17})
+}
+
+func runC07_17(c *core.Ctx) {
+	f := getFn(c, "pkg/netpoll", "OpenPoller")
+	closeFn := c.P.Func("pkg/netpoll", "Poller.Close")
+	if f == nil || !c.Need("Poller.Close", closeFn) {
+		return
+	}
+	cf := fnOf(c, closeFn)
+	if cf == nil || cf.Decl.Body == nil || cf.recvVar() == nil {
+		c.Undecided(f.Name, "Poller.Close body", f.Decl.Pos(), "Poller.Close has no body in this configuration")
+		return
+	}
+	// the fields Close hands to close(2) outside every if/switch
+	var fields []*types.Var
+	var collect func(n ast.Node)
+	collect = func(n ast.Node) {
+		ast.Inspect(n, func(x ast.Node) bool {
+			switch y := x.(type) {
+			case *ast.IfStmt, *ast.SwitchStmt, *ast.TypeSwitchStmt, *ast.FuncLit:
+				_ = y
+				return false
+			case *ast.CallExpr:
+				if flow.IsPkgFunc(cf.Info, y, unixPkg, "Close") && len(y.Args) == 1 {
+					if fv := flow.FieldOf(cf.Info, y.Args[0]); fv != nil {
+						fields = append(fields, fv)
+					}
+				}
+			}
+			return true
+		})
+	}
+	collect(cf.Decl.Body)
+	if len(fields) == 0 || len(fields) > 3 {
+		c.Undecided(f.Name, "descriptor fields closed by Poller.Close", cf.Decl.Pos(), itoa(len(fields))+" unconditional close(2) calls on fields found in Poller.Close; expected 1 to 3")
+		return
+	}
+	idx := func(v *types.Var) int {
+		for i, fv := range fields {
+			if fv == v {
+				return i
+			}
+		}
+		return -1
+	}
+	nf := uint(len(fields))
+	all := 1<<nf - 1
+	// state bits: [0,nf) assigned flags | err (2 bits: 0 unknown, 1 nil, 2 non-nil) | deferred kind (2 bits) | bad (1 bit)
+	const (
+		eUnknown = 0
+		eNil     = 1
+		eFail    = 2
+	)
+	pack := func(asg, e, d, bad int) int { return asg | e<<nf | d<<(nf+2) | bad<<(nf+4) }
+	unpack := func(s int) (asg, e, d, bad int) {
+		return s & all, s >> nf & 3, s >> (nf + 2) & 3, s >> (nf + 4) & 1
+	}
+	isErr := func(e ast.Expr) bool {
+		o := flow.ObjOf(f.Info, e)
+		return o != nil && isErrorType(o.Type())
+	}
+	var badAt token.Pos
+	var badWhat string
+	au := &flow.Auto{Start: pack(0, eNil, 0, 0)}
+	au.Node = func(b *flow.Block, i int, n ast.Node, st int) int {
+		asg, e, d, bad := unpack(st)
+		if ds, ok := n.(*ast.DeferStmt); ok {
+			if k := deferredPollerClose(f, ds, closeFn); k > d {
+				d = k
+			}
+			return pack(asg, e, d, bad)
+		}
+		flow.Events(n, func(x ast.Node) {
+			switch y := x.(type) {
+			case *ast.CallExpr:
+				if flow.IsCall(f.Info, y, closeFn) && asg != all {
+					bad = 1
+					if badAt == token.NoPos {
+						badAt, badWhat = y.Pos(), "poller.Close() is called"
+					}
+				}
+			case *ast.AssignStmt:
+				for _, l := range y.Lhs {
+					if fv := flow.FieldOf(f.Info, l); fv != nil {
+						if k := idx(fv); k >= 0 {
+							asg |= 1 << uint(k)
+						}
+					}
+					if isErr(l) {
+						e = eUnknown
+					}
+				}
+			case *ast.CompositeLit:
+				for _, el := range y.Elts {
+					if kv, ok := el.(*ast.KeyValueExpr); ok {
+						if id, ok := kv.Key.(*ast.Ident); ok {
+							if fv, ok := f.Info.Uses[id].(*types.Var); ok {
+								if k := idx(fv); k >= 0 {
+									asg |= 1 << uint(k)
+								}
+							}
+						}
+					}
+				}
+			}
+		})
+		if r, ok := n.(*ast.ReturnStmt); ok && len(r.Results) > 0 {
+			e = eUnknown
+			last := r.Results[len(r.Results)-1]
+			if flow.IsNil(f.Info, last) {
+				e = eNil
+			}
+		}
+		return pack(asg, e, d, bad)
+	}
+	au.Edge = func(ed *flow.Edge, st int) int {
+		if ed.Cond == nil || ed.Tag != nil {
+			return st
+		}
+		x, y, op, ok := flow.Cmp(ed.Cond)
+		if !ok || !flow.IsNil(f.Info, y) || !isErr(x) {
+			return st
+		}
+		asg, _, d, bad := unpack(st)
+		if (op == token.NEQ) == ed.Sense {
+			return pack(asg, eFail, d, bad)
+		}
+		return pack(asg, eNil, d, bad)
+	}
+	sol := f.Graph().Run(au)
+	k := 0
+	sol.AtExit(func(b *flow.Block, _ uint64) {
+		k++
+		for _, st := range flow.States(sol.Out(b)) {
+			asg, e, d, bad := unpack(st)
+			if bad != 0 {
+				continue // reported at the call
+			}
+			if asg != all && (d == 2 || d == 1 && e != eNil) && badAt == token.NoPos {
+				badAt, badWhat = b.Return.Pos(), "the deferred clean-up calls poller.Close() at this return"
+			}
+		}
+	})
+	names := ""
+	for i, fv := range fields {
+		if i > 0 {
+			names += ", "
+		}
+		names += fv.Name()
+	}
+	at := f.Decl.Pos()
+	if badAt != token.NoPos {
+		at = badAt
+	}
+	c.Check(badAt == token.NoPos, f.Name, "Poller.Close only once its descriptor fields are assigned", at,
+		itoa(k)+" returns inspected; Close closes "+names+" unconditionally",
+		badWhat+" while a descriptor field it closes unconditionally ("+names+") may still hold Go's zero value: close(0) takes descriptor 0 away from the application – the framework closes a descriptor it never created")
 }
 
 func init() {
